@@ -3,6 +3,7 @@ import DaskModel.Model.Config
 import DaskModel.Generated.ConfigTables
 import DaskModel.Model.LockReg
 import DaskModel.Model.Match
+import DaskModel.Model.Bytes
 open Dask
 
 /-! ## C17 — config store
@@ -313,6 +314,72 @@ def table : List (String × Handler) :=
    ("rw-iter", hIter), ("rw-rewrite", hRewrite), ("rw-process", hProcess)]
 end C51
 
-def table : List (String × Handler) := C17.table ++ C53.table ++ C51.table
+/-! ## C18 — byte / duration helpers -/
+namespace C18
+open Dask.Bytes
+
+/-- `(fmt-bytes n)` ↦ `"…"` -/
+def hFmt : Handler := handler fun args =>
+  match args with
+  | [n] => do pure (.str (formatBytes (← n.toInt?)))
+  | _ => none
+
+/-- `(fmt-band n)` ↦ `(prefix k cents)` | `none`: which band, and the integer whose digits are printed -/
+def hBand : Handler := handler fun args =>
+  match args with
+  | [n] => do
+    let n ← n.toNat?
+    match bandOf n with
+    | some (pre, k) => pure (.list [.str pre, SExp.ofNat k, SExp.ofNat (cents n k)])
+    | none => pure (.sym "none")
+  | _ => none
+
+/-- `(parse-bytes "s")` -/
+def hParse : Handler := handler fun args =>
+  match args with
+  | [s] => do
+    match parseBytes (← s.toStr?) with
+    | .ok v => pure (.list [.sym "ok", .int v])
+    | .badNumber => pure (.list [.sym "bad-number"])
+    | .badUnit => pure (.list [.sym "bad-unit"])
+  | _ => none
+
+/-- `(parse-td "s" "default")` ↦ `(int v)` | `(float neg m e)` | `(IndexError)` | `(ValueError)` | `(KeyError)` -/
+def hParseTd : Handler := handler fun args =>
+  match args with
+  | [s, d] => do
+    match parseTimedelta (← s.toStr?) (← d.toStr?) with
+    | .int v => pure (.list [.sym "int", .int v])
+    | .float neg m e => pure (.list [.sym "float", SExp.ofBool neg, SExp.ofNat m, .int e])
+    | .indexError => pure (.list [.sym "IndexError"])
+    | .valueError => pure (.list [.sym "ValueError"])
+    | .keyError => pure (.list [.sym "KeyError"])
+  | _ => none
+
+/-- `(nat-sort "s")` ↦ parts: strings and integers -/
+def hNatSort : Handler := handler fun args =>
+  match args with
+  | [s] => do
+    pure (.list ((naturalSortKey (← s.toStr?)).map fun p =>
+      match p with
+      | .text t => .str (String.ofList t)
+      | .num n => SExp.ofNat n))
+  | _ => none
+
+/-- `(float-lit "s")` ↦ `(m e)` of `float(s)` (magnitude) | `none` -/
+def hLit : Handler := handler fun args =>
+  match args with
+  | [s] => do
+    match parseLit (← s.toStr?).toList with
+    | some l => pure (.list [SExp.ofBool l.neg, SExp.ofNat l.toDy.m, .int l.toDy.e])
+    | none => pure (.sym "none")
+  | _ => none
+
+def table : List (String × Handler) :=
+  [("fmt-bytes", hFmt), ("fmt-band", hBand), ("parse-bytes", hParse), ("parse-td", hParseTd), ("nat-sort", hNatSort),
+   ("float-lit", hLit)]
+end C18
+
+def table : List (String × Handler) := C17.table ++ C53.table ++ C51.table ++ C18.table
 
 def main : IO Unit := runDriver table
